@@ -207,6 +207,33 @@ pub fn cmd_probe(args: &[String]) {
             }
         }
     }
+    if args.iter().any(|a| a == "--lite") {
+        // deeper stacks at low cost: one or two representative slots below three slots drawn from a reduced alphabet,
+        // so that a guard or effect that (wrongly) looks at the fourth or fifth slot from the top is met as well
+        let lite4: Vec<char> = "ldecMits".chars().collect();
+        let lite5: Vec<char> = "lMci".chars().collect();
+        let reps: Vec<char> = DEEP_REPS.chars().collect();
+        for r in &reps {
+            for a in &lite4 {
+                for b in &lite4 {
+                    for c in &lite4 {
+                        stacks.push([*r, *a, *b, *c].iter().collect());
+                    }
+                }
+            }
+        }
+        for r1 in &reps {
+            for r2 in &reps {
+                for a in &lite5 {
+                    for b in &lite5 {
+                        for c in &lite5 {
+                            stacks.push([*r1, *r2, *a, *b, *c].iter().collect());
+                        }
+                    }
+                }
+            }
+        }
+    }
     let out = std::io::stdout();
     let mut w = std::io::BufWriter::new(out.lock());
     use std::io::Write;
